@@ -169,6 +169,20 @@ pub fn c09_embedded_case(ctx_text: &[u8], out: &mut Vec<Violation>) -> u64 {
 			} else if t2 != t1 {
 				out.push(mk("path_mut.normalize:idempotent").obs(format!("{:?} then {:?}", lossy(&t1), lossy(&t2))).exp("same text"));
 			}
+			// the same call through a handle built over the raw buffer (where the family has one)
+			let (ps, pe) = syntax::split_ranges(ctx_text).path;
+			match guard(|| raw_path_handle(ctx_text, ps, pe, &mut |h| h.normalize())) {
+				Guard::Ok(Some((raw, view))) => {
+					let (rs, re) = syntax::split_ranges(&raw).path;
+					if raw != t1 {
+						out.push(mk("PathMut::new.normalize").obs(format!("{:?}", lossy(&raw))).exp(format!("{:?} as through path_mut()", lossy(&t1))));
+					} else if view != raw[rs..re] {
+						out.push(mk("PathMut::new.normalize:view").obs(format!("{:?}", lossy(&view))).exp(format!("{:?}", lossy(&raw[rs..re]))));
+					}
+				}
+				Guard::Ok(None) => (),
+				Guard::Panic(pm) => out.push(mk("PathMut::new.normalize").feat("panic_at", panic_site(&pm)).obs(format!("panic: {pm}")).exp("no panic")),
+			}
 		}
 		Guard::Panic(pm) => out.push(mk("path_mut.normalize").feat("panic_at", panic_site(&pm)).obs(format!("panic: {pm}")).exp("no panic")),
 	}
